@@ -63,6 +63,7 @@ def main():
     assert os.path.realpath(pytato.__file__).startswith(
         os.path.realpath(root) + os.sep), pytato.__file__
     from simkit import fleet_ops
+    fleet_ops.PIPE = (send, recv)
     state = fleet_ops.State()
     send(("ready", {"pid": os.getpid(),
                     "hashseed": os.environ.get("PYTHONHASHSEED"),
